@@ -1134,8 +1134,10 @@ DOMServices::isNodeAfter(
                 {
                     if (0 == prevChild1) // first time in loop?
                     {
-                        // Edge condition: one is the ancestor of the other.
-                        isNodeAfter = (nParents1 < nParents2) ? true : false;
+                        // Edge condition: one is the ancestor (or the owner
+                        // element) of the other.  The deeper one comes after
+                        // it, so node1 is after node2 if it is the deeper one.
+                        isNodeAfter = (nParents1 > nParents2) ? true : false;
 
                         break; // from while loop
                     }
